@@ -10,3 +10,15 @@ package common
 //@   ensures neg:      bodySize < 0 ==> err != nil
 //@   ensures exact:    bodySize >= 0 && exact <  1<<64 ==> err == nil && u192(fee) == exact
 //@   ensures overflow: bodySize >= 0 && exact >= 1<<64 ==> err != nil
+
+// Interface getters treated as deterministic functions of the receiver (assumed, listed in evidence).
+//@ pureiface Transaction.TTL Transaction.ValidityIntervalStart Transaction.Cbor Transaction.Type Transaction.Fee
+//@ pureiface Transaction.IsValid Transaction.Withdrawals LedgerState.IsRewardAccountRegistered DRepDelegationState.DRepDelegation
+//@ pureany ProtocolMajorVersion uint
+
+// C33: the stake credential of a reward address, as a function of the address.
+//@ func (a *Address) StakeCredential() (cred, ok)
+//@   functional
+//@   props C33
+//@   ensures nilrecv: a == nil ==> !ok
+//@   ensures kinds: ok <==> a != nil && (dyn(a.stakingPayload) == type(AddressPayloadKeyHash) || dyn(a.stakingPayload) == type(AddressPayloadScriptHash))
